@@ -8,6 +8,13 @@ from oracles import fit_o as F
 from props._util import rng_for
 
 LEVEL = "other"
+# Contract-based deductive verification cannot reach this property: fit_to_pdb / can_write_pdb are pandas expressions from the
+# first line to the last (groupby, map, categorical dtypes, DataFrame renames), and pandas is not modelled by the verifier
+# (nor could a faithful model be stated in the time available). Per the brief the honest answer is "not applicable";
+# the bounded oracle below is kept as a regression harness (./check.py C10 still runs it, and it found three genuine
+# defects, see known_findings.json) but the property is NOT claimed in MANIFEST.json.
+NOT_APPLICABLE = ("no contract within reach: the whole logic of fit_to_pdb/can_write_pdb is pandas (groupby, categorical dtypes, column renames), "
+                  "which the verifier does not model; a bounded oracle exists (./check.py C10) but is testing, not this technique")
 DEDUCTIVE = []
 TRUSTED = ["pandas 2.2 (DataFrame, categorical, groupby semantics)", "mmcif IoAdapterPy tokeniser", "CPython 3.12",
            "gen/tables.py + gen/emit.py emitters (independent of the library's writers)"]
